@@ -194,6 +194,9 @@ class CirqSimulator(Backend):
             if self.n_shots:
                 self.all_frequencies = {k: v / self.n_shots for k, v in samples.items()}
                 frequencies = {k[:]: v / self.n_shots for k, v in samples.items()}
+            # Without shots, also return the keys of length (n_meas + n_qubits) so that simulate() splits them correctly
+            else:
+                frequencies = self.all_frequencies
 
         # Calculate final density matrix and sample from that for noisy simulation or simulating mixed states
         elif (self._noise_model or source_circuit.is_mixed_state) and not save_mid_circuit_meas:
